@@ -10,6 +10,7 @@ import Tickit.Proof.WinFull
 import Tickit.Proof.WinScrollStep
 import Tickit.Proof.WinScrollCh
 import Tickit.Proof.WinNodup
+import Tickit.Proof.WinPen
 import Tickit.Props.C02
 /-
   C01 — The flushed screen equals the painter's-model composition of the window tree.
@@ -1321,6 +1322,241 @@ theorem root_setGeometry_same (t : Tree) (fuel : Nat) (w : Win) (hg : WinTree.ge
 example : ∃ w, WinTree.get (St.init 2 2 none).tree 0 = .ok w ∧ w.parent = none ∧
     setGeometryExposed (St.init 2 2 none).tree (St.init 2 2 none).fuel 0 w.rect = .ok (St.init 2 2 none).tree :=
   ⟨{ rect := ⟨0, 0, 2, 2⟩, isRoot := true }, rfl, rfl, root_setGeometry_same _ _ _ rfl rfl⟩
+
+/-! ### pen inheritance: handlers that rely on the pen `_do_expose` hands them
+
+  `Repaints` asks a handler to repaint whatever pen the buffer carries.  A handler that relies on the pen it *inherits*
+  (`_do_expose`: `if(win->pen) tickit_renderbuffer_setpen(rb, win->pen)` after the parent's `tickit_renderbuffer_save`, so
+  the window pens are merged down the tree) — e.g. one that only erases and expects its window's or an ancestor's
+  background — does not satisfy it.  `WinSpec.RepaintsP t pens content beh` asks the same only of buffers carrying
+  `WinSpec.mergedPen t pens _ w`, the pen `_do_expose` does hand window `w` (`Proof/WinPen.lean`: `flush_shots_pen`, every
+  handler invocation of every flush finds exactly that pen).  Everything above holds under this weaker proviso. -/
+
+/-- **`flush_exact_pen`**: `flush_exact` under the pen-aware proviso, for a tree whose parent pointers agree with its
+    child lists (`WFp`, `RootWin`: the merged pen is defined along the parent chain, the rendering descends the child
+    lists; both hold of every reachable tree). -/
+theorem flush_exact_pen (beh : Id → Rect → List DrawOp) (content : Id → Int → Int → Cell)
+    (st st' : St) (t : Tree) (shots : List Shot)
+    (h : flushRender beh st t = .ok (st', shots)) (hroot : RootOk t) (hflag : Flagged t) (hwf : WFp t) (hrw : RootWin t)
+    (hrep : RepaintsP t st.pens content beh) (hinv : Inv content t st.screen) :
+    st'.tree.root.damage = [] ∧ st'.tree.wins = t.wins ∧ Exact content st'.tree st'.screen :=
+  flushRender_exact_pen beh content st st' t shots h hroot hflag hwf hrw hrep hinv
+
+/-- One operation of a history other than a flush: it takes the content `content` of the windows to `content'` (only a
+    scroll changes it).  No handler is involved. -/
+inductive OpStep : (Id → Int → Int → Cell) → St → (Id → Int → Int → Cell) → St → Prop where
+  | tree {content st} (op : TreeOp) (st' : St) :
+      op.Ok → runTreeOp st op = .ok st' → OpStep content st content st'
+  | expose {content st} (id : Id) (e : Option Rect) (t' : Tree) :
+      WinTree.expose st.tree st.fuel id e = .ok t' → OpStep content st content { st with tree := t' }
+  | scroll {content st} (oracle : Oracle) (win : Id) (rect : Rect) (d r : Int) (pen : Option Pen) (st' : St) (ret : Bool)
+      (content' : Id → Int → Int → Cell) :
+      WinFlush.scroll oracle st win rect d r pen true = .ok (st', ret) →
+      (∀ w l c, content' w l c = if w = win ∧ rect.memb l c = true then content w (l + d) (c + r) else content w l c) →
+      OpStep content st content' st'
+  /-- `tickit_window_scroll_with_children`, then the application moves the children (`scrollch_step_full`) -/
+  | scrollch {content st} (oracle : Oracle) (win : Id) (w : Win) (d r : Int) (st' : St) (ret : Bool)
+      (content' : Id → Int → Int → Cell) :
+      WinTree.get st.tree win = .ok w →
+      WinFlush.scrollWithChildrenMoved oracle st win d r = .ok (st', ret) →
+      (∀ w' l c, content' w' l c =
+        if w' = win ∧ (⟨0, 0, w.rect.lines, w.rect.cols⟩ : Rect).memb l c = true then content w' (l + d) (c + r)
+        else content w' l c) →
+      OpStep content st content' st'
+
+/-- Every such operation keeps the invariant. -/
+theorem opStep_good {content content' : Id → Int → Int → Cell} {st st' : St} (h : OpStep content st content' st')
+    (hg : GoodQ content st) : GoodQ content' st' := by
+  cases h with
+  | tree op st' hop hrun => exact inv_step_full _ _ st' op hop hg hrun
+  | expose id e t' he => exact goodQ_expose _ _ id e t' he hg
+  | scroll oracle win rect d r pen st' ret content' hs hc =>
+    exact scroll_step_full oracle _ content' _ st' win rect d r pen ret hg hs hc
+  | scrollch oracle win w d r st' ret content' hw hs hc =>
+    exact scrollch_step_full oracle _ content' _ st' win w d r ret hg hw hs hc
+
+/-- The histories of `Reach`, without a handler proviso carried along: the handlers matter at the flushes only, and
+    there the pen-aware proviso is asked of the handlers that flush runs, for the tree it is applied to. -/
+inductive ReachP : (Id → Int → Int → Cell) → St → Prop where
+  | init (content : Id → Int → Int → Cell) (lines cols : Int) (pen : Option Pen) :
+      0 < lines → 0 < cols → ReachP content (St.init lines cols pen)
+  | op {content content' st st'} : ReachP content st → OpStep content st content' st' → ReachP content' st'
+  | flush {content st} (beh : Id → Rect → List DrawOp) (st' : St) (shots : List Shot) :
+      ReachP content st → RepaintsP st.tree st.pens content beh → WinFlush.flush beh st = .ok (st', shots) →
+      ReachP content st'
+  /-- a flush whose handlers also call `tickit_window_expose` (for the next flush) -/
+  | flushX {content st} (beh : Id → Rect → List DrawOp) (behExp : Id → Rect → List (Id × Option Rect)) (st' : St)
+      (shots : List Shot) :
+      ReachP content st → RepaintsP st.tree st.pens content beh → WinFlush.flushX beh behExp st = .ok (st', shots) →
+      ReachP content st'
+
+/-- Every state of such a history satisfies the invariant. -/
+theorem reachP_good {content : Id → Int → Int → Cell} {st : St} (h : ReachP content st) : GoodQ content st := by
+  induction h with
+  | init content lines cols pen hl hc => exact goodQ_init content lines cols pen hl hc
+  | op _ hstep ih => exact opStep_good hstep ih
+  | flush beh st' shots _ hrep hf ih => exact (goodQ_flush_pen beh _ _ st' shots hf hrep ih).1
+  | flushX beh behExp st' shots _ hrep hf ih => exact (goodQ_flushX_pen beh behExp _ _ st' shots hf hrep ih).1
+
+/-- Every history of `Reach` is one of `ReachP`: handlers that repaint whatever pen they find do so with the pen they
+    inherit. -/
+theorem reach_reachP {content : Id → Int → Int → Cell} {beh : Id → Rect → List DrawOp} {st : St}
+    (h : Reach content beh st) : ReachP content st := by
+  induction h with
+  | init content beh lines cols pen hl hc _ => exact ReachP.init content lines cols pen hl hc
+  | tree op st' _ hop hrun ih => exact ReachP.op ih (OpStep.tree op st' hop hrun)
+  | expose id e t' _ he ih => exact ReachP.op ih (OpStep.expose id e t' he)
+  | scroll oracle win rect d r pen st' ret content' beh' _ hs hc _ ih =>
+    exact ReachP.op ih (OpStep.scroll oracle win rect d r pen st' ret content' hs hc)
+  | scrollch oracle win w d r st' ret content' beh' _ hw hs hc _ ih =>
+    exact ReachP.op ih (OpStep.scrollch oracle win w d r st' ret content' hw hs hc)
+  | flush st' shots hr hf ih =>
+    exact ReachP.flush _ st' shots ih (repaintsP_of_repaints (reach_good hr).2 _ _) hf
+  | flushX behExp st' shots hr hf ih =>
+    exact ReachP.flushX _ behExp st' shots ih (repaintsP_of_repaints (reach_good hr).2 _ _) hf
+
+/-- **`C01_full_pen`**: `C01_full` for handlers that rely on the pen they inherit.  After any history (the operations of
+    `C01_full`; at each earlier flush the handlers run then satisfied the pen-aware proviso), a flush whose handlers
+    repaint the area they are asked to *when the buffer carries the merged pen of their window* — the window pens laid
+    over each other down the parent chain, which is what `_do_expose` hands them — leaves every owned terminal cell
+    showing what its owner paints there, and nothing pending. -/
+theorem C01_full_pen {content : Id → Int → Int → Cell} {beh : Id → Rect → List DrawOp} {st : St} (hreach : ReachP content st)
+    (hrep : RepaintsP st.tree st.pens content beh) (st' : St) (shots : List Shot)
+    (h : WinFlush.flush beh st = .ok (st', shots)) :
+    Exact content st'.tree st'.screen ∧ st'.tree.root.damage = [] ∧ st'.tree.root.changes = [] := by
+  obtain ⟨_, h1, h2, h3⟩ := goodQ_flush_pen beh content st st' shots h hrep (reachP_good hreach)
+  exact ⟨h1, h3, h2⟩
+
+/-- The same for a flush whose handlers call `tickit_window_expose` while it runs. -/
+theorem C01_full_pen_handlers_expose {content : Id → Int → Int → Cell} {beh : Id → Rect → List DrawOp} {st : St}
+    (hreach : ReachP content st) (hrep : RepaintsP st.tree st.pens content beh)
+    (behExp : Id → Rect → List (Id × Option Rect)) (st' : St) (shots : List Shot)
+    (h : WinFlush.flushX beh behExp st = .ok (st', shots)) : Exact content st'.tree st'.screen :=
+  (goodQ_flushX_pen beh behExp content st st' shots h hrep (reachP_good hreach)).2
+
+/-- And every handler invocation of such a flush does find the merged pen of its window. -/
+theorem handlers_find_merged_pen {content : Id → Int → Int → Cell} {st : St} (hreach : ReachP content st)
+    (beh : Id → Rect → List DrawOp) (st' : St) (shots : List Shot) (h : WinFlush.flush beh st = .ok (st', shots)) :
+    ∀ sh ∈ shots, sh.rb.pen = mergedPen st.tree st.pens (st.tree.wins.size + 1) sh.win :=
+  flush_shots_pen beh content st st' shots h (reachP_good hreach)
+
+/-! #### non-vacuity: a handler that relies on inheritance -/
+
+/-- A handler that only erases the rectangle it is handed: what shows is a blank in whatever pen it inherits. -/
+def inheritBeh : Id → Rect → List DrawOp := fun _ rect => [.eraseRect rect]
+
+theorem reachP_runTreeOps {content : Id → Int → Int → Cell} :
+    ∀ (ops : List TreeOp) (st st' : St), ReachP content st → (∀ op ∈ ops, op.Ok) → runTreeOps st ops = .ok st' →
+    ReachP content st' := by
+  intro ops
+  induction ops with
+  | nil => intro st st' r _ h; simp only [runTreeOps] at h; cases h; exact r
+  | cons op ops ih =>
+    intro st st' r hok h
+    simp only [runTreeOps, bind, Bind.bind] at h
+    cases h1 : runTreeOp st op with
+    | ub e => rw [h1] at h; cases h
+    | ok st1 =>
+      rw [h1] at h
+      exact ih st1 st' (ReachP.op r (OpStep.tree op st1 (hok op List.mem_cons_self) h1))
+        (fun o ho => hok o (List.mem_cons_of_mem _ ho)) h
+
+/-- Root window with a background colour, a child without a pen of its own, a grandchild with a foreground colour. -/
+def penOps : List TreeOp :=
+  [ .newWindow 0 ⟨1, 1, 2, 4⟩ false false false false none,
+    .newWindow 1 ⟨0, 1, 1, 2⟩ false false false false (some { fg := some 3 }) ]
+
+def penState : St :=
+  match runTreeOps (St.init 4 8 (some { bg := some 1 })) penOps with
+  | .ok st => st
+  | .ub _ => {}
+
+/-- What the windows of `penState` show under `inheritBeh`: blanks in their merged pens. -/
+def inheritContent : Id → Int → Int → Cell :=
+  fun w _ _ => Cell.blank (mergedPen penState.tree penState.pens (penState.tree.wins.size + 1) w)
+
+/-- An erase-only handler satisfies the pen-aware proviso for "a blank in the merged pen", on every tree. -/
+theorem inherit_repaintsP (t : Tree) (pens : Array (Option Pen)) :
+    RepaintsP t pens (fun w _ _ => Cell.blank (mergedPen t pens (t.wins.size + 1) w)) inheritBeh := by
+  intro w rect rb L C hpen hw hm
+  show (rb.eraseRect rect).cells L C = _
+  simp only [RB.eraseRect, RB.putRect]
+  rw [if_pos ⟨by rw [memb_translate]; exact hm, hw⟩, hpen]
+
+/-- … but not `Repaints`: handed a buffer with another pen, it leaves a blank in that pen. -/
+theorem inherit_not_repaints : ¬ Repaints inheritContent inheritBeh := by
+  intro h
+  have h0 := h 0 ⟨0, 0, 1, 1⟩ (RB.new 1 1) 0 0 (by decide +kernel) (by decide +kernel)
+  have hl : ((RB.new 1 1).run (inheritBeh 0 ⟨0, 0, 1, 1⟩)).cells 0 0 = some (.plain (Cell.blank {})) := by
+    show ((RB.new 1 1).eraseRect ⟨0, 0, 1, 1⟩).cells 0 0 = _
+    simp only [RB.eraseRect, RB.putRect]
+    rw [if_pos ⟨by decide +kernel, by decide +kernel⟩]
+    rfl
+  rw [hl] at h0
+  simp only [Option.some.injEq, CellV.plain.injEq] at h0
+  have hb : (inheritContent 0 (0 - (RB.new 1 1).xl) (0 - (RB.new 1 1).xc)).bg = 1 := by decide +kernel
+  rw [← h0] at hb
+  exact absurd hb (by decide)
+
+/-- The hypotheses of `C01_full_pen` are jointly satisfiable by a handler that is **not** covered by `C01_full`: the
+    history `penOps` is a `ReachP` derivation, `inheritBeh` satisfies the pen-aware proviso in its final state and not
+    `Repaints`, and the flush succeeds — after which (by the theorem, and checked here) the grandchild's cell shows its
+    own foreground over the root's background, inherited through a window without a pen. -/
+example : ∃ (st st' : St) (shots : List Shot), ReachP inheritContent st ∧
+    RepaintsP st.tree st.pens inheritContent inheritBeh ∧ ¬ Repaints inheritContent inheritBeh ∧
+    WinFlush.flush inheritBeh st = .ok (st', shots) ∧
+    st'.screen 1 2 = ⟨32, 3, 1, false⟩ ∧ st'.screen 1 1 = ⟨32, -1, 1, false⟩ ∧ st'.screen 0 0 = ⟨32, -1, 1, false⟩ := by
+  have hok : ∀ op ∈ penOps, op.Ok := by
+    intro op hop
+    simp only [penOps, List.mem_cons, List.mem_nil_iff, or_false] at hop
+    rcases hop with rfl | rfl <;> trivial
+  have hrun : isOk (runTreeOps (St.init 4 8 (some { bg := some 1 })) penOps) = true := by decide +kernel
+  have hreach : ReachP inheritContent penState := by
+    cases h1 : runTreeOps (St.init 4 8 (some { bg := some 1 })) penOps with
+    | ub e => rw [h1] at hrun; cases hrun
+    | ok st =>
+      have : penState = st := by unfold penState; rw [h1]
+      rw [this]
+      exact reachP_runTreeOps penOps _ st (ReachP.init _ 4 8 _ (by decide) (by decide)) hok h1
+  have hfl : isOk (WinFlush.flush inheritBeh penState) = true := by decide +kernel
+  have hscr : (match WinFlush.flush inheritBeh penState with
+      | .ok r => (r.1.screen 1 2, r.1.screen 1 1, r.1.screen 0 0)
+      | .ub _ => (Cell.never, Cell.never, Cell.never)) = (⟨32, 3, 1, false⟩, ⟨32, -1, 1, false⟩, ⟨32, -1, 1, false⟩) := by
+    decide +kernel
+  cases h2 : WinFlush.flush inheritBeh penState with
+  | ub e => rw [h2] at hfl; cases hfl
+  | ok r =>
+    rw [h2] at hscr
+    simp only [Prod.mk.injEq] at hscr
+    exact ⟨penState, r.1, r.2, hreach, inherit_repaintsP _ _, inherit_not_repaints, h2, hscr.1, hscr.2.1, hscr.2.2⟩
+
+/-- `flush_exact_pen`'s hypotheses hold of the tree of `penState` (with `inheritBeh`, which `flush_exact` does not
+    cover). -/
+example : ∃ st' shots, flushRender inheritBeh penState penState.tree = .ok (st', shots) ∧ RootOk penState.tree ∧
+    Flagged penState.tree ∧ WFp penState.tree ∧ RootWin penState.tree ∧
+    RepaintsP penState.tree penState.pens inheritContent inheritBeh := by
+  have hrun : isOk (runTreeOps (St.init 4 8 (some { bg := some 1 })) penOps) = true := by decide +kernel
+  have hg : GoodQ inheritContent penState := by
+    cases h1 : runTreeOps (St.init 4 8 (some { bg := some 1 })) penOps with
+    | ub e => rw [h1] at hrun; cases hrun
+    | ok st =>
+      have : penState = st := by unfold penState; rw [h1]
+      rw [this]
+      exact reachP_good (reachP_runTreeOps penOps _ st (ReachP.init _ 4 8 _ (by decide) (by decide))
+        (by intro op hop
+            simp only [penOps, List.mem_cons, List.mem_nil_iff, or_false] at hop
+            rcases hop with rfl | rfl <;> trivial) h1)
+  have hfl : isOk (flushRender inheritBeh penState penState.tree) = true := by decide +kernel
+  have hvis : RootVisible penState.tree := by
+    intro w hw
+    have : (penState.tree.wins[0]?).map (fun w => w.isVisible) = some true := by decide +kernel
+    rw [hw] at this
+    simpa using this
+  cases h2 : flushRender inheritBeh penState penState.tree with
+  | ub e => rw [h2] at hfl; cases hfl
+  | ok r =>
+    exact ⟨r.1, r.2, rfl, rootOk_of_visible hg.tinv.ok hvis, fun hd => (hg.flags hd).1, hg.tinv.ok.wf, hg.tinv.ok.rootWin,
+      inherit_repaintsP _ _⟩
 
 /-! ### facts regenerated from the C source on every run -/
 
